@@ -345,3 +345,17 @@ func CloseChan[T any](site string, ch chan<- T) {
 	Yield(site)
 	close(ch)
 }
+
+// Unwind is deferred around every instrumented blocking channel operation. A goroutine that
+// another task woke by closing the channel it was sending on panics out of the operation: its
+// deferred functions must not run concurrently with the task holding the baton, so the panic
+// is held here until the scheduler picks this task, and then continues.
+func Unwind(t *Task) {
+	if r := recover(); r != nil {
+		if _, ok := r.(abortPanic); ok {
+			panic(r)
+		}
+		Post(t)
+		panic(r)
+	}
+}
